@@ -6,8 +6,11 @@ from props.common import *
 import props.reclcommon as rc
 
 SFX_QUICK = ['_hp', '_he', '_ebr', '_qsbr', '_stamp', '_lfrc']
+MARKED = [('HPs<3>', '_hp_m1'), ('HEs<3>', '_he_m1'), ('EBR', '_ebr_m1')]
+MARKED_ALL = MARKED + [('HPd<1>', '_hpd_m1'), ('QSBR', '_qsbr_m1'), ('STAMP', '_stamp_m1')]
 def harnesses(tier):
-    return rc.harnesses('thorough', only=None if tier == 'thorough' else SFX_QUICK)
+    # the same client with one mark bit in its concurrent_ptrs (XV_MARKBITS=1): a second thread toggles only the mark
+    return rc.harnesses('thorough', only=None if tier == 'thorough' else SFX_QUICK) + [('recl', ('XV_RECL=%s' % a, 'XV_MARKBITS=1'), False, sfx) for a, sfx in (MARKED_ALL if tier == 'thorough' else MARKED)]
 HARNESSES = harnesses('quick')
 ASSUMPTIONS = [
     'marked_ptr: the theorems are about the Gallina functions generated from marked_ptr.hpp/utils.hpp; the generated functions are additionally run against the compiled C++ on random and boundary inputs for 14 (MarkBits, MaxUpperMarkBits) instantiations in every run',
@@ -17,7 +20,7 @@ ASSUMPTIONS = [
 INST = [(1, 16), (2, 16), (3, 16), (16, 16), (17, 16), (18, 16), (24, 16), (32, 16), (3, 1), (8, 0), (5, 2), (32, 0), (20, 8), (1, 0)]
 
 def replay(sig, V, wd):
-    hs = X.build_harnesses(rc.harnesses('thorough'))
+    hs = X.build_harnesses(harnesses('thorough'))
     (st, det), out = X.replay_case(hs[sig.get('harness', 'recl_hp')][0], sig['case'], wd, ('--trace',))
     print(out[-3000:]); print('REPLAY status=%d %s' % (st, det))
     return 1 if st != 0 else 0
@@ -96,6 +99,19 @@ def run(ctx):
     tie = marked_ptr_differential(ctx)
     n = 400 if thorough else 60
     for name, H in sorted(ctx['H'].items()):
+        if name.endswith('_m1'):
+            # marked pointers: acquire_if_equal must return true only when the WHOLE marked_ptr (pointer and mark) it leaves in the
+            # guard equals `expected`; a thread that flips only the mark between the two loads of acquire_if_equal must make it fail
+            cfg = {'cells': '2', 'slots': '3', 'flushes': '40'}
+            jobs = []
+            for prog in ([['readeq 0', 'readeq 0', 'holdeq 0 0', 'deref 0'], ['mark 0', 'mark 0', 'mark 0']],
+                         [['holdeq 0 0', 'deref 0', 'holdeq 0 1', 'deref 1', 'readeq 1'], ['mark 0', 'repl 1', 'mark 1', 'mark 0']],
+                         [['hold 0 0', 'holdeq 0 1', 'deref 1', 'readeq 0'], ['mark 0'], ['mark 0', 'repl 0']]):
+                jobs.append((cfg, prog, 'dfs', 800 if thorough else 300, ctx['seed'], ('--pb', '2')))
+                jobs.append((cfg, prog, 'prefix', 60, ctx['seed'], ()))
+                jobs.append((cfg, prog, 'random', 400 if thorough else 150, ctx['seed'], ()))
+            do_search(ctx, H, jobs, name, classify=lambda c, h, f, name=name: {'harness': name})
+            continue
         K = rc.K_of(name)
         if K is not None and K < 3:
             continue
